@@ -366,6 +366,8 @@ def main():
         scn = dict(scn)
         scn['prop'] = pid
         scn['violation_class'] = cls
+        scn['origin'] = first['tag']          # ['random', seed, index] or ['sweep', cell, ordinal]
+        scn['found_with'] = {'tier': args.tier, 'seed': args.seed, 'detail': first['detail']}
         name = '%s-%s.json' % (pid, hashlib.sha1(cls.encode()).hexdigest()[:10])
         path = os.path.join(replay_dir, name)
         with open(path, 'w') as f:
